@@ -145,6 +145,7 @@ class Ctx:
                 "trusted_base": ["CPython ast parser", "/verif/sa abstract interpreter and rule tables",
                                  "per-property spec tables in DESIGN.md section 4"],
                 "repo_digest": self.repo.digest(),
+                "sensitivity_sweep": getattr(self, "sweep", None),
             },
             "assumptions": meta.get("assumptions", []),
             "wall_s": round(wall, 3),
@@ -157,6 +158,10 @@ class Ctx:
         print(f"[{self.pid} {self.tier}] obligations={n_obl} discharged={n_ok} violations={len(unknown)} "
               f"known={len(known_hits)} errors={len(self.errors)} functions={len(self.functions)} "
               f"evaluations={ev['coverage']['evaluations']} wall={wall:.2f}s")
+        sw = getattr(self, "sweep", None)
+        if sw:
+            print(f"[{self.pid} sweep] mutants={sw['mutants']} killed={sw['killed']} undecided={sw['undecided_exit2']} survived={sw['survived']} | "
+                  f"rewrites={sw['rewrites']} silent={sw['rewrites_silent']} alarms={len(sw['rewrite_alarms'])}")
         for l in lines:
             print(l)
         return code
